@@ -1090,7 +1090,7 @@ PROPS["C22"] = dict(
 PROPS["C21"] = dict(
     corr_module="Corr.C21",
     streams={"doctor": dict(runner="C21_run", in_t="C21_in", out_t="C21_out", shard=8, imports=["Model.Doctor"])},
-    n_quick=10, n_thorough=400,
+    n_quick=16, n_thorough=400,
     harness_timeout=6000,
     rule="real memories built through the shared driver (1-3 rounds of 2-4 puts of text/binary documents of 1-2300 bytes, 3 in 4 memories with embeddings, a delete + an update + commit per later round), closed normally or left "
          "crash-interrupted (drop without commit: 1-3 acknowledged puts, optionally a delete and an update, pending in the log); each case = a COPY of the file + one or two targeted damages made with std::fs "
@@ -1098,19 +1098,19 @@ PROPS["C21"] = dict(
          "time index / vector index / one Tantivy segment zeroed, regions taken from the public Header, Toc and footer types; outside the list: log region overwritten with garbage, pointer + footer both damaged) "
          "x option sets (quick: fixed plan covering every damage class on a closed and on a crash-left file with default / all-rebuild+vacuum / single flag / dry-run sets; thorough: all 32 on every sixth case, random otherwise); "
          "sequence per case: doctor(options) -> verify(deep) -> doctor(default or the same options) -> open + frame table. Compared with the model: report status, plan findings + run findings (codes, in order), plan phases, "
-         "verify passed, second run's status, whether the memory opens, the frame table (status, content tag) read back, the vector count. Property oracle (implementation only; reference = the undamaged copy opened normally, "
+         "verify passed, second run's status, whether the memory opens, the frame table (status, content tag) read back, the vector count (not compared when both runs are dry runs on a zeroed vector index: the count is then Memvid::open's own doing). Cases with pointer damage + pending inserts (the class of the repaired F-C21-1) stay in the fixed plan and are compared in full; a case in which HealHeaderPointer reports Executed is tagged heal-header-pointer-EXECUTED (none so far: proved impossible on listed files). Property oracle (implementation only; reference = the undamaged copy opened normally, "
          "which replays pending records): doctor status Clean/Healed, every active reference frame present with the same status, content hash and every other column (payload window excepted), verify Passed, second run Clean "
          "(Clean or Healed with the same forcing options), dry run leaves the bytes unchanged. non-trivial = damaged, or pending records, or non-default options; distinct by digest of (file, damage, options)",
     level_text="Unbounded theorems over a coarse model of Memvid::doctor that follows doctor.rs' decision tree (read_toc / recover_toc, probe, compute, try_open incl. header fix-up and log replay, try_recover_from_wal_corruption, "
                "aggressive header repair, phases HeaderHealing / WalReplay / Vacuum / IndexRebuild+apply_pending_rebuilds / Finalize / Verify with reset_wal, header revert, verify, status rule): for EVERY damage of the property's list "
-               "(and every combination that leaves pointer or footer intact), every frame table, every list of pending acknowledged records and all 32 option combinations, outside two known classes: the result's frame table = committed rows with "
+               "(and every combination that leaves pointer or footer intact), every frame table, every list of pending acknowledged records and all 32 option combinations, outside one known class: the result's frame table = committed rows with "
                "the pending records applied (no active frame removed or altered, no acknowledged record dropped), report Clean/Healed with verification passed, the file opens and verifies, a second default run reports Clean "
-               "(any second run: Clean iff nothing is forced, never Failed, rows unchanged); dry_run changes nothing on any file. The property as stated is REFUTED in two classes (F-C21-1 stale-pointer-after-replay, F-C21-2 toc-checksum-field; "
-               "witnesses by vm_compute) and proved outside them. Boundaries stated: unreadable log -> pending records dropped; older intact commit inside the file -> older table restored; pointer and footer both lost -> Failed. "
+               "(any second run: Clean iff nothing is forced, never Failed, rows unchanged); dry_run changes nothing on any file. The property as stated is REFUTED in one remaining class (F-C21-2 toc-checksum-field; witness by vm_compute) and proved outside it; F-C21-1 stale-pointer-after-replay was repaired by f76b325 "
+               "(HealHeaderPointer only moves the pointer forward: modelled; the old witness is a regression Example that heals, the refutation is kept about doctor_unfixed; the remaining `<` branch is proved never to fire on a listed file). Boundaries stated: unreadable log -> pending records dropped; older intact commit inside the file -> older table restored; pointer and footer both lost -> Failed. "
                "Tied to the code by doctor runs on real damaged files compared field by field with the model.",
     level_note="Partial (coarse model): frame content is a tag, index contents are states (none / ok / damaged); what replay, vacuum and rebuild_indexes do to the rows is taken from C01 / C42 (rows = committed + pending applied; vacuum keeps status and content) "
                "and checked here only end to end on real files. Embeddings are not part of a frame: a forced or damage-triggered vector rebuild empties the vector index (F-C14-1, owned by C14; modelled as vector count 0 and observed). "
-               "A zeroed Tantivy segment is invisible to probe, open and verify (doctor reports Clean; detection is C20's). Known findings F-C21-1, F-C21-2. Trusted: Coq kernel + vm_compute; hand-written model (tied by correspondence); "
+               "A zeroed Tantivy segment is invisible to probe, open and verify (doctor reports Clean; detection is C20's). Known finding F-C21-2 (F-C21-1 fixed by f76b325). Trusted: Coq kernel + vm_compute; hand-written model (tied by correspondence); "
                "the abstract description of each damaged file is derived from the damage applied, not re-measured; harness.",
     trusted_base=["replay of pending records = apply to the committed rows (C01's theorem); vacuum preserves status and content of every row (C42's theorem); both are re-observed on every case through the frame table read back",
                   "the TOC is assumed to move when the replay inserts a frame (new payloads are written from the old TOC offset on) and to stay when it only deletes; the harness always includes an insert among the pending records",
@@ -1200,7 +1200,7 @@ PROPS["C09"] = dict(
 )
 
 # Temporarily held while the models are being updated to repaired /repo code (2026-09-22):
-for _pid in ("C21",):
+for _pid in ():
     PROPS[_pid]["hold"] = True
 
 PROPS["C07"] = dict(
